@@ -588,6 +588,10 @@ func (p *Parser) ParseContext(ctx context.Context, tokens []token.Token) (*ast.A
 		if err != nil {
 			// Clean up the AST on error
 			ast.ReleaseAST(result)
+			// An error observed while the context is done is a cancellation, whatever wrapped it
+			if cerr := ctx.Err(); cerr != nil {
+				return nil, fmt.Errorf("parsing cancelled: %w", cerr)
+			}
 			return nil, err
 		}
 		result.Statements = append(result.Statements, stmt)
